@@ -33,7 +33,7 @@ import traceback
 from collections import Counter
 
 from .. import gen, view
-from ..harness import Result, Violation, clip, parallel
+from ..harness import Result, Violation, clip, parallel, seed
 from .mut import _spec_json, spec_from_json
 
 C_RAISE = "ensures the export returns (no exception, terminates)"
@@ -479,9 +479,13 @@ def run(prop: str, tier: str, only=None) -> Result:
     total = Result(prop)
     groups, words = inputs(tier)
     specs = [s for g in groups.values() for s in g]
+    n_hist = 3
+    hst = gen.history_specs([s for s in specs if len(s) <= n_hist])
+    big = gen.big_specs(seed() + 17, 6 if tier == "quick" else 40, lo=18, hi=32) + gen.big_specs(seed() + 18, 3 if tier == "quick" else 20, lo=18, hi=32, typed=True)
+    specs = specs + hst + big
     total.merge(parallel(_chunk, specs, prop, prop=prop, chunks_per_proc=8))
     total.bounds["to_dot / to_dotfile / to_mermaid_flowchart / to_rdf_graph"] = (
-        f"all labelled trees with clones: {words} ({len(specs)} trees); the Tree and every start node; unique_nodes on/off x add_root/add_self on/off "
+        f"all labelled trees with clones: {words} ({len(specs)} trees incl. {len(big)} seeded larger trees with 18..32 nodes and {len(hst)} " + "histories: every tree of <= {n} nodes with all accessors evaluated once, then one of remove / remove(keep_children) / move_to / add / remove_children / sort_children / deep copy (native/hist.py), the checks run on the resulting tree".format(n=n_hist) + "); the Tree and every start node; unique_nodes on/off x add_root/add_self on/off "
         "for DOT (Tree.to_dot, Node.to_dot, to_dotfile to a stream and to a file) and Mermaid (markdown and plain); RDF with add_self on/off"
     )
     return total
